@@ -1,6 +1,7 @@
 package main
 
 import (
+	badger "github.com/dgraph-io/badger/v2"
 	"bufio"
 	"fmt"
 	"os"
@@ -29,6 +30,9 @@ func extraEngines(args []string) bool {
 		tlsEngine(args[1], args[2])
 	case "dkg":
 		dkgEngine(args[1])
+	case "expiry":
+		// dh expiry <badger dir>: every record of a CLOSED slashing-protection store with its expiry time (0 = permanent)
+		expiryEngine(args[1])
 	case "imp":
 		// dh imp <workdir> <dirk binary>
 		impEngine(args[1], args[2])
@@ -79,4 +83,30 @@ func sigcheck() {
 	for _, r := range res {
 		fmt.Fprintln(out, r)
 	}
+}
+
+
+// expiryEngine opens a closed store directory read-only with badger itself and prints "<keyhex> <expiresAt>" for every
+// record that carries an expiry time, then "records <n>". A released signature's record must be permanent.
+func expiryEngine(dir string) {
+	opt := badger.DefaultOptions(dir).WithReadOnly(true).WithLogger(nil)
+	db, err := badger.Open(opt)
+	if err != nil {
+		fmt.Println("error", err)
+		return
+	}
+	defer db.Close()
+	n := 0
+	_ = db.View(func(txn *badger.Txn) error {
+		it := txn.NewIterator(badger.DefaultIteratorOptions)
+		defer it.Close()
+		for it.Rewind(); it.Valid(); it.Next() {
+			n++
+			if e := it.Item().ExpiresAt(); e != 0 {
+				fmt.Printf("%x %d\n", it.Item().Key(), e)
+			}
+		}
+		return nil
+	})
+	fmt.Println("records", n)
 }
